@@ -314,6 +314,22 @@ func genC16(seed uint64, tier string, idx int) c16Data {
 			k := strings.Index(text, "\n") + 1
 			sc.Sources = []Source{{Name: "f", Text: text[:k]}, {Name: "-"}}
 			sc.Stdin = text[k:]
+		} else if r.Bool(0.4) && len(text) > 1 {
+			// two or three sources cut anywhere, also in the middle of a line and right before a newline:
+			// -Rs is the whole text, byte for byte; -R lines are per source
+			a := r.Intn(len(text) + 1)
+			b := a + r.Intn(len(text)-a+1)
+			switch r.Intn(3) {
+			case 0:
+				sc.Sources = []Source{{Name: "f", Text: text[:a]}, {Name: "-"}}
+				sc.Stdin = text[a:]
+			case 1:
+				sc.Sources = []Source{{Name: "-"}, {Name: "g", Text: text[a:]}}
+				sc.Stdin = text[:a]
+			default:
+				sc.Sources = []Source{{Name: "f", Text: text[:a]}, {Name: "-"}, {Name: "g", Text: text[b:]}}
+				sc.Stdin = text[a:b]
+			}
 		}
 		sc.Query = "."
 	case idx < tr.Order+tr.Slurp+tr.Raw+tr.Malformed:
